@@ -65,6 +65,41 @@ def grid_eval(fn_point, t, x):
     return np.array(out.tolist(), dtype=float)
 
 
+def vec_ops_vs_twin(rng, n):
+    """vector Laplacian (component count given or left to its default) and advection (u.grad)u of a separable
+    two-component field in 2 space dimensions, with and without time, against the reverse-mode operators on the
+    pointwise twin at every grid index; 1, 2 or 3 points per axis"""
+    jax, jnp, np, eqx, jinns = jx()
+    from jinns.parameters import Params
+    import jinns.loss._operators as O
+    fails = []
+    close = lambda a, b: np.allclose(np.asarray(a), np.asarray(b), rtol=1e-9, atol=1e-11)
+    for rnd in range(n):
+        B = [1, 2, 3][rnd % 3]
+        for has_t in (False, True):
+            s, r = spinn(rng, 3 if has_t else 2, 2, "nonstatio_PDE" if has_t else "statio_PDE"); tw = make_twin(s, has_t)
+            Ps = Params(nn_params=s.init_params(), eq_params={}); Pt = Params(nn_params=tw.init_params(), eq_params={})
+            t = jnp.array([[dy(rng, 0, 3) + 0.125 * k] for k in range(B)]) if has_t else None
+            x = jnp.array([[dy(rng), dy(rng)] for _ in range(B)])
+            tag = f"{'with' if has_t else 'without'} time, {B} point(s) per axis"
+            for nm, fw_fun, rv_fun in (
+                    ("vector Laplacian (component count given)", lambda: O._vectorial_laplacian(t, x, s, Ps, u_vec_ndim=2), lambda tt, xx: O._vectorial_laplacian(tt, xx, tw, Pt, u_vec_ndim=2)),
+                    ("vector Laplacian (default component count)", lambda: O._vectorial_laplacian(t, x, s, Ps), lambda tt, xx: O._vectorial_laplacian(tt, xx, tw, Pt)),
+                    ("advection (u.grad)u", lambda: O._u_dot_nabla_times_u_fwd(t, x, s, Ps), lambda tt, xx: O._u_dot_nabla_times_u_rev(tt, xx, tw, Pt))):
+                try:
+                    fw = np.asarray(fw_fun())
+                    rv = grid_eval(rv_fun, t, x)                       # grid axes first, components last
+                    if nm.startswith("vector"):
+                        fw = np.moveaxis(fw, 0, -1)                    # the separable vector Laplacian puts the components first
+                    rv = rv.reshape(rv.shape[:fw.ndim - 1] + (-1,))
+                    if fw.shape != rv.shape or not close(fw, rv):
+                        fails.append({"detail": f"{nm}, {tag}: the separable network gives shape {fw.shape}, the pointwise twin on the grid {rv.shape}" + ("" if fw.shape != rv.shape else "; values differ"),
+                                      "case": dict(what="vector operator", name=nm, has_t=has_t, B=B)})
+                except Exception as ex:
+                    fails.append({"detail": f"{nm}, {tag} raised {type(ex).__name__}: {str(ex)[:160]}", "case": dict(what="vector operator", name=nm, has_t=has_t, B=B)})
+    return fails
+
+
 def impl_vs_impl(rng, n, residuals_only=False, terms_only=False):
     """separable vs pointwise on the built-in residuals and on the loss terms (tolerance 1e-9); the number of
     points per axis is 1, 2 or 3 (fewer, as many, more than the space dimension)"""
@@ -147,6 +182,32 @@ def impl_vs_impl(rng, n, residuals_only=False, terms_only=False):
                     fails.append({"detail": f"1-D non-stationary {tag} term with {B} time point(s): {float(a['boundary_loss'])} on the separable network, {float(b['boundary_loss'])} on its pointwise twin", "case": dict(what="terms", cond=tag + " 1-D non-stationary", B=B)})
             except Exception as ex:
                 fails.append({"detail": f"1-D non-stationary {tag} term with {B} time point(s) raised {type(ex).__name__}: {str(ex)[:160]}", "case": dict(what="terms", cond=tag + " 1-D non-stationary", B=B)})
+        # stationary 1-D and non-stationary 2-D boundary terms (the dimension tests of the separable branches take other paths there)
+        for cond in ("dirichlet", "von neumann"):
+            try:
+                s, r = spinn(rng, 1, 1, "statio_PDE"); tw = make_twin(s, False)
+                Ps = Params(nn_params=s.init_params(), eq_params={}); Pt = Params(nn_params=tw.init_params(), eq_params={})
+                border1 = jnp.array([[[-1.0, 2.0]]])
+                common = dict(dynamic_loss=None, omega_boundary_fun=lambda z: 0.5 + 0.0 * z[..., 0:1] if z.ndim > 1 else 0.5, omega_boundary_condition=cond)
+                Ls = jinns.loss.LossPDEStatio(u=s, params=Ps, **common); Lt = jinns.loss.LossPDEStatio(u=tw, params=Pt, **common)
+                _, a = Ls.evaluate(Ps, PDEStatioBatch(inside_batch=jnp.array([[0.5]]), border_batch=border1))
+                _, b = Lt.evaluate(Pt, PDEStatioBatch(inside_batch=jnp.array([[0.5]]), border_batch=border1))
+                if not close(a["boundary_loss"], b["boundary_loss"]):
+                    fails.append({"detail": f"1-D stationary {cond} term: {float(a['boundary_loss'])} on the separable network, {float(b['boundary_loss'])} on its pointwise twin", "case": dict(what="terms", cond=cond + " 1-D stationary")})
+                s, r = spinn(rng, 3, 1, "nonstatio_PDE"); tw = make_twin(s, True)
+                Ps = Params(nn_params=s.init_params(), eq_params={}); Pt = Params(nn_params=tw.init_params(), eq_params={})
+                tcol = [0.25 + 0.375 * k for k in range(B)]
+                C = [[tcol, [[-1.0, 2.0][f] if f < 2 else dy(rng) + 0.125 * k for k in range(B)], [[0.5, 1.5][f - 2] if f >= 2 else dy(rng) - 0.25 * k for k in range(B)]] for f in range(4)]
+                border2 = jnp.array([[[C[f][c][i] for f in range(4)] for c in range(3)] for i in range(B)])          # (B, 3, 4)
+                bgrid2 = jnp.stack([jnp.array([[t, x, y] for t in C[f][0] for x in C[f][1] for y in C[f][2]]) for f in range(4)], axis=-1)
+                common = dict(dynamic_loss=None, omega_boundary_fun=lambda t, x: 0.5 + 0.25 * t[..., 0:1] if hasattr(t, "ndim") and t.ndim > 1 else 0.5 + 0.25 * t, omega_boundary_condition=cond)
+                Ls = jinns.loss.LossPDENonStatio(u=s, params=Ps, **common); Lt = jinns.loss.LossPDENonStatio(u=tw, params=Pt, **common)
+                _, a = Ls.evaluate(Ps, PDENonStatioBatch(times_x_inside_batch=jnp.zeros((B, 3)), times_x_border_batch=border2))
+                _, b = Lt.evaluate(Pt, PDENonStatioBatch(times_x_inside_batch=jnp.zeros((B, 3)), times_x_border_batch=bgrid2))
+                if not close(a["boundary_loss"], b["boundary_loss"]):
+                    fails.append({"detail": f"2-D non-stationary {cond} term with {B} point(s) per axis: {float(a['boundary_loss'])} on the separable network, {float(b['boundary_loss'])} on its pointwise twin", "case": dict(what="terms", cond=cond + " 2-D non-stationary", B=B)})
+            except Exception as ex:
+                fails.append({"detail": f"1-D stationary / 2-D non-stationary {cond} term raised {type(ex).__name__}: {str(ex)[:160]}", "case": dict(what="terms", cond=cond + " 1-D stationary / 2-D non-stationary", B=B)})
         # non-stationary normalisation term: B batch times, N = B, 2B or 4B normalisation samples (the separable branch
         # repeats the times to the sample count), 1-D space
         s, r = spinn(rng, 2, 1, "nonstatio_PDE"); tw = make_twin(s, True)
@@ -206,9 +267,13 @@ def generate(tier, seed, casedir, variant):
     except Exception as ex:
         viol.append({"detail": f"separable / pointwise comparison raised {type(ex).__name__}: {str(ex)[:300]}", "case": {"what": "impl_vs_impl"}})
     dist["impl_vs_impl_rounds"] = nio
+    try:
+        viol += vec_ops_vs_twin(rng, 3 if tier == "quick" else 9)
+    except Exception as ex:
+        viol.append({"detail": f"vector operator comparison raised {type(ex).__name__}: {str(ex)[:300]}", "case": {"what": "vector operator"}})
     write_cases(casedir, "C11", "R_C11", variant, cases, chunk=60)
     return dict(meta=meta, oracle_violations=viol, evaluations=len(cases) + nio * 7, distinct_nontrivial=len(cases), samples=samples, distribution=dist,
-                rule="forward-mode Laplacian / divergence of random separable networks (1..3 spatial dimensions, with and without time, embedding size 1..3, 1..3 batch points, three grid indices each) against the operator model on the network's expression; plus, implementation against implementation, the six built-in residuals and the dynamic / boundary (Dirichlet, Neumann) / normalisation terms of LossPDEStatio and the 1-D Neumann term of LossPDENonStatio on a separable network and on its pointwise twin over the whole grid, with 1 / 2 / 3 points per axis; all cases distinct (fresh random weights)",
+                rule="forward-mode Laplacian / divergence of random separable networks (1..3 spatial dimensions, with and without time, embedding size 1..3, 1..3 batch points, three grid indices each) against the operator model on the network's expression; plus, implementation against implementation, the vector Laplacian (given and default component count) and the advection operator with and without time, the six built-in residuals and the dynamic / boundary (Dirichlet, Neumann) / normalisation terms of LossPDEStatio the 1-D stationary, 1-D and 2-D non-stationary boundary terms, the non-stationary normalisation (1-4 samples per batch time) and 2-D initial-condition terms on a separable network and on its pointwise twin over the whole grid, with 1 / 2 / 3 points per axis; all cases distinct (fresh random weights)",
                 oracle_checks=nio * 7)
 
 
